@@ -6,14 +6,21 @@
 //                     multi-cuts, fed in-process to a WebSocketServer subclass; delivered
 //                     messages / close callback must equal the generator's list for every cut
 //   client_segments : same, unmasked, into WebSocketClient::handleData (hook H3)
-//   (further properties are added below: wire capture over loopback, hostile headers)
+//   server_wire     : real loopback connection, raw-socket peer with an exact per-segment read
+//   client_wire       barrier, application sends interleaved; capture of everything the endpoint
+//                     puts on the wire: pongs == pings, sends intact and in order, no data frame
+//                     behind the endpoint's close frame; deliveries as above
+//   *_close_race    : 1-4 application threads hammer sendText/sendBinary while the close
+//                     handshake starts (application / peer close frame / invalid text)
+//   hostile         : declared lengths up to 2^64-1 and beyond maxFrameSize, illegal control
+//                     frames, endless fragments, mutated streams: no exception, bounded single
+//                     allocations (ASan allocator hooks), no buffering behind an unacceptable frame
+//   + 18 PBT_REGRESSION cases (replays/C18). See props/C18.notes.md.
 #include "c18_gen_ws.hpp"
+#include "c18_inproc.hpp"
+#include "c18_rawpeer.hpp"
 #include "c18_ref_ws.hpp"
 #include "pbt.hpp"
-
-#include "c18_inproc.hpp"
-
-#include "c18_rawpeer.hpp"
 
 #include <algorithm>
 #include <atomic>
